@@ -81,8 +81,9 @@ def align_shape(*polys: PolyLike) -> Tuple[ndpoly, ...]:
     """
     # return tuple(numpoly.broadcast_arrays(*polys))
     polys_ = [numpoly.aspolynomial(poly) for poly in polys]
-    # boolean ones: multiplying by them broadcasts without promoting the
-    # coefficient type (integer ones turn uint64 coefficients into floats)
+    # (only the shape of ``common`` is used: coefficients are copied into it,
+    # no arithmetic -- multiplying by ones promotes uint64 to float when the
+    # ones are integers, and turns inf+0j into inf+nanj for any ones)
     common = numpy.ones(
         numpy.broadcast_shapes(*[poly.shape for poly in polys_]), dtype=bool
     )
@@ -92,7 +93,10 @@ def align_shape(*polys: PolyLike) -> Tuple[ndpoly, ...]:
             polys_[idx] = poly.from_attributes(
                 exponents=poly.exponents,
                 # (an empty array lists no coefficients: keep its shape)
-                coefficients=tuple(coeff * common for coeff in poly.coefficients)
+                coefficients=tuple(
+                    numpy.array(numpy.broadcast_to(coeff, common.shape))
+                    for coeff in poly.coefficients
+                )
                 or tuple(numpy.zeros(common.shape, dtype=poly.dtype) for _ in poly.keys),
                 names=poly.indeterminants,
             )
